@@ -45,6 +45,10 @@ class OutOfModel(Exception):
     pass
 
 
+class NotADatabase(Exception):
+    """a parse route returned something that is not a `Database`"""
+
+
 def _idx_is(lst, obj):
     for i, x in enumerate(lst):
         if x is obj:
@@ -170,6 +174,9 @@ def dump_group(g, db):
 
 def dump_db(db):
     """Value tree of a Database (raises OutOfModel when links leave the database)."""
+    from pydbml.database import Database
+    if not isinstance(db, Database):
+        raise NotADatabase(type(db).__name__)
     p = db.project
     return {
         'tables': [dump_table(t, db) for t in db.tables],
